@@ -65,7 +65,8 @@ def sync_tuner_copy():
                 f"replace github.com/paulsonkoly/chess-3 => {REPO}\n")
 
 
-def build_go():
+def build_go(race=False):
+    """race=True also builds h-race (go build -race) for streams registered with race=True."""
     os.makedirs(BIN, exist_ok=True)
     sync_tuner_copy()
     try:
@@ -78,8 +79,10 @@ def build_go():
                          cwd=h, timeout=900)
             if rc != 0:
                 raise BuildError("go", out)
-        rc, out = sh(["go", "build", "-race", "-tags", "verif", "-o", os.path.join(BIN, "h-race"), "./cmd/h"],
-                     cwd=h, timeout=900) if os.environ.get("VERIF_RACE") else (0, "")
+        # -race implies -d=checkptr, which rejects the uintptr round trip in transp.(*Table).Resize
+        # (transp.go:116-120, listed under "modelled, not verified"); the race detector itself stays on
+        rc, out = sh(["go", "build", "-race", "-gcflags=all=-d=checkptr=0", "-tags", "verif", "-o", os.path.join(BIN, "h-race"), "./cmd/h"],
+                     cwd=h, timeout=900) if (race or os.environ.get("VERIF_RACE")) else (0, "")
         if rc != 0:
             raise BuildError("go", out)
     finally:
@@ -407,7 +410,7 @@ class Result:
 
 def setup():
     with Lock():
-        build_go()
+        build_go(race=True)
         changed = regenerate()
         coq_makefile()
         log(f"regenerated Gen files changed: {changed}")
@@ -426,9 +429,9 @@ def setup():
     return 0
 
 
-def prepare(res):
+def prepare(res, race=False):
     """Steps 1-4 of a run. Returns False if the tree does not build (outside the contract)."""
-    build_go()
+    build_go(race)
     changed = regenerate()
     if changed:
         res.notes.append("Gen files changed by the translator on this run: " + ", ".join(changed))
@@ -472,7 +475,7 @@ def main(argv):
     prop = props.PROPS[pid]
     with Lock():
         try:
-            prepare(res)
+            prepare(res, race=any(sc.race for sc in prop.streams))
         except BuildError as e:
             print(f"[check] the working tree does not build ({e.stage}); this is outside the contract of the check\n{e.log[-4000:]}")
             return 2
